@@ -17,9 +17,13 @@ Keys2 == { [n |-> <<"kk", d1, d2, nf>>, ks |-> <<SortK(Col(1), d1, nf), SortK(Co
 KeysE == { [n |-> <<"expr", d>>, ks |-> <<SortK(Arith("mul", Col(1), Col(2)), d, "default"), SortK(Col(1), FALSE, "default")>>] : d \in Dirs }
          \cup { [n |-> <<"boolkey", d>>, ks |-> <<SortK(CmpE("ge", Col(1), LitI(1)), d, "default")>>] : d \in Dirs }
 KeysT == { [n |-> <<"text", d, nf>>, ks |-> <<SortK(Col(2), d, nf)>>] : d \in Dirs, nf \in NFs }
+(* an integer and a text key together, every direction pair, either order: rows tie on the first key, the text key decides
+   (its comparison goes through an encoded prefix and, for long or prefix-equal values, the full value) *)
+KeysIT == { [n |-> <<"int_text", d1, d2>>, ks |-> <<SortK(Col(1), d1, "default"), SortK(Col(2), d2, "default")>>] : d1 \in Dirs, d2 \in Dirs }
+     \cup { [n |-> <<"text_int", d1, d2>>, ks |-> <<SortK(Col(2), d1, "default"), SortK(Col(1), d2, "default")>>] : d1 \in Dirs, d2 \in Dirs }
 
 Sorts == { [tag |-> <<"sort", "A">> \o <<ToString(k.n)>>, q |-> SortQ(A, k.ks)] : k \in Keys1 \cup Keys2 \cup KeysE }
-   \cup  { [tag |-> <<"sort", "S">> \o <<ToString(k.n)>>, q |-> SortQ(S, k.ks)] : k \in KeysT }
+   \cup  { [tag |-> <<"sort", "S">> \o <<ToString(k.n)>>, q |-> SortQ(S, k.ks)] : k \in KeysT \cup KeysIT }
    \cup  { [tag |-> <<"sort_agg", "A", "sum">>, q |-> SortQ(AggQ(A, <<Col(1)>>, <<AggF("sum", Col(2))>>), <<SortK(Col(2), d, nf)>>)] : d \in Dirs, nf \in NFs }
    \cup  { [tag |-> <<"sort_join", "A", "left">>,
             q |-> SortQ(Join("left", A, Scan("B"), Eq(Col(1), Col(3)), 2, 2), <<SortK(Col(3), d, nf), SortK(Col(1), FALSE, "default")>>)] : d \in Dirs, nf \in NFs }
@@ -29,6 +33,8 @@ TopN == { [tag |-> <<"topn", "A", ToString(<<n, o, d>>)>>, q |-> LimitQ(SortQ(A,
    \cup { [tag |-> <<"topn2", "A", ToString(<<n, o>>)>>,
            q |-> LimitQ(SortQ(A, <<SortK(Col(2), TRUE, "first"), SortK(Col(1), FALSE, "last")>>), n, o)] : n \in Lims, o \in Offs }
    \cup { [tag |-> <<"topn_text", "S", ToString(<<n, o>>)>>, q |-> LimitQ(SortQ(S, <<SortK(Col(2), FALSE, "default")>>), n, o)] : n \in Lims, o \in Offs }
+   \cup { [tag |-> <<"topn_text2", "S", ToString(<<n, o, d>>)>>,
+           q |-> LimitQ(SortQ(S, <<SortK(Col(2), d, "default"), SortK(Col(1), ~d, "default")>>), n, o)] : n \in Lims, o \in Offs, d \in Dirs }
 (* the same slice with the sort hidden in a subquery so that no limit hint can reach it *)
    \cup { [tag |-> <<"topn_nohint", "A", ToString(<<n, o>>)>>,
            q |-> LimitQ(SortQ(Filter(A, True), <<SortK(Col(1), FALSE, "default"), SortK(Col(2), FALSE, "default")>>), n, o)] : n \in Lims, o \in Offs }
